@@ -133,6 +133,13 @@ Conforms(ev, V, W) ==
                                 \* on the order in which the tips are met
                                 THEN UCanon(MView(t)).len = UCanon(W).len /\ UCanon(MView(t)).sup = UCanon(W).sup
                                 ELSE UCanon(MView(t)) = UCanon(W)
+\* the call is modelled, the model applies to the recorded pre-state, and every result it allows is inside the domain of
+\* the properties, while the recorded result is outside
+ModelStaysInDomain(ev, V, W) ==
+  /\ InDomain(V) /\ ~InDomain(W)
+  /\ Modelled(ev) /\ SingleNodes(V) = {} /\ Cardinality(V.tips) >= 3
+  /\ LET r == Apply(FromView(V), ev)
+     IN  r.ok /\ ~r.refuse /\ r.res # {} /\ \A t \in r.res : InDomain(MView(t))
 RefusalConforms(ev, V) ==
   IF ~Modelled(ev) \/ SingleNodes(V) # {} \/ Cardinality(V.tips) < 3 THEN TRUE ELSE Apply(FromView(V), ev).refuse
 Note(kind, ev, cls) == PrintT("NOTE|" \o kind \o "|" \o ev.op \o "|" \o cls \o "|" \o ToString(l) \o "|" \o ev.case)
@@ -197,7 +204,12 @@ TraceOp ==
                           /\ nfail' = nfail + (IF On("C03") THEN Cardinality(r[2]) ELSE 0) + (IF own THEN 1 ELSE 0)
                           /\ alive' = FALSE
                  ELSE IF r[1] = ""
-                 THEN nfail' = nfail /\ alive' = FALSE    \* left the domain (e.g. fewer than 2 tips): not judged further
+                 THEN \* left the domain (fewer than 2 tips, root with a single neighbour, ...): not judged further -- unless
+                      \* the operational model says that this call on this tree stays inside (e.g. UnRoot leaving the tree
+                      \* rooted on a tip): then the result is judged as a result of C03 (text, enumerations), plus the fact
+                      LET g == IF On("C03") /\ ModelStaysInDomain(Ev, View(T0), View(T1))
+                               THEN C03Fails(Ev, T1) \cup {"ResultLeavesTheTreeDomain"} ELSE {}
+                      IN  Report("C03", Ev, cls, g) /\ nfail' = nfail + Cardinality(g) /\ alive' = FALSE
                  ELSE /\ (CONFORM /\ ~Conforms(Ev, View(T0), View(T1)) => Note("DRIFT", Ev, cls))
                       /\ \A p \in PropIds : Report(p, Ev, cls, r[2][p])
                       /\ nfail' = nfail + MapThenSumSet(LAMBDA p : Cardinality(r[2][p]), PropIds)
